@@ -292,6 +292,9 @@ def whole_statements(src, l1, l2):
         for field in ('body', 'orelse', 'finalbody'):
             body = getattr(n, field, None)
             if isinstance(body, list) and body and isinstance(body[0], ast.stmt):
+                if field == 'orelse' and isinstance(n, ast.If) and len(body) == 1 and isinstance(body[0], ast.If) \
+                        and body[0].col_offset == n.col_offset:
+                    continue                          # an `elif` is part of its if statement
                 for i, a in enumerate(body):
                     if a.lineno == l1:
                         for b in body[i:]:
